@@ -1,6 +1,7 @@
 #include "core.h"
 #include <cstdio>
 #include <cstdlib>
+#include <string>
 
 // classify sanitizer hits: exit code 77, no leak sanitizer (leaks are found by exact allocator accounting)
 extern "C" __attribute__((used, visibility("default"))) const char *__asan_default_options()
@@ -15,6 +16,10 @@ extern "C" __attribute__((used, visibility("default"))) const char *__ubsan_defa
 int main(int argc, char **argv)
 {
 	setvbuf(stdout, nullptr, _IOLBF, 0);
-	setenv("LOCPATH", "/verif/build/locale", 0); // synthesized comma-decimal locale (locale/build_locale.sh)
+	{
+		const char *vd = getenv("VERIF_DIR");
+		std::string lp = std::string(vd && *vd ? vd : "/verif") + "/build/locale";
+		setenv("LOCPATH", lp.c_str(), 0);
+	} // synthesized comma-decimal locale (locale/build_locale.sh)
 	return driver_main(argc, argv);
 }
